@@ -212,6 +212,20 @@ let handle kind a =
         else sync_queries32 f file script p0 nrefs es qs in
       Some ("A=" ^ join aq ^ ";AU=" ^ fmt_a (async_query_unmapped32 f file codes seeks chunk p0 es)
             ^ ";S=" ^ join sq ^ ";SU=" ^ fmt_a (sync_query_unmapped32 f file script p0 es))
+  | "gz" ->
+      (* 0 entries, 1 variant, 2 opt, 3 mutation, 4 file bytes: the model sees the bytes only *)
+      let file = bytes_of_hex a.(4) in
+      let r, w = match read_crai_gz file with
+        | GOk es ->
+            ((if es = [] then "_" else String.concat ";" (List.map fmt_entry es)),
+             (if beqb (write_crai_gz_stored es) file then "1" else "0"))
+        | GErr GzEof -> ("Err:UnexpectedEof", "0")
+        | GErr GzInvalid -> ("Err:InvalidInput", "0")
+        | GErr GzBody -> ("OutOfModel", "0")
+        | GErr GzText -> ("Err:InvalidData", "0") in
+      let t = match gunzip file with GOk t -> hex_of_bytes t | GErr _ -> "-" in
+      let f = match gz_framed_as file with Some x -> dec_of_n x | None -> "-" in
+      Some ("R=" ^ r ^ ";T=" ^ t ^ ";F=" ^ f ^ ";W=" ^ w)
   | "unm" ->
       let f = parse_mfile a.(6) (parse_recs a.(3)) in
       (match index_m (n_of_dec a.(4)) f with
